@@ -64,6 +64,8 @@ pub enum Action {
     CancelThenCloseChannel { ch: u16, nth_consumer: u32, nowait: bool, code: u16, text: String },
     Blocked(String),
     Unblocked,
+    /// `count` more deliveries for the nth consumer of the channel (if it is still consuming)
+    DeliverMore { ch: u16, nth_consumer: u32, count: u32 },
     /// pre-encoded frames pushed verbatim on the mux queue of channel `ch`
     Raw { ch: u16, frames: Vec<Vec<u8>> },
     /// a byte stream delivered in segments cut at the given offsets (relative to its start),
@@ -1098,6 +1100,30 @@ impl Broker {
                     self.enqueue_now(ch, vec![Self::m(ch, AMQPClass::Basic(B::Cancel(cancel)))], SentKind::ServerCancel { ch, tag, nowait });
                 }
             }
+            Action::DeliverMore { ch, nth_consumer, count } => {
+                if self.phase != Phase::Open {
+                    return;
+                }
+                let exists = self.chans.get(&ch).map(|c| (c.open, c.consumers.get(nth_consumer as usize).map(|x| x.2).unwrap_or(false)));
+                match exists {
+                    None | Some((true, false)) => {
+                        self.retry_later(Action::DeliverMore { ch, nth_consumer, count }, attempt);
+                        return;
+                    }
+                    Some((false, _)) => return,
+                    _ => {}
+                }
+                let tag = self.chans.get(&ch).and_then(|cs| cs.consumers.get(nth_consumer as usize).and_then(|c| if c.1 { Some(c.0.clone()) } else { None }));
+                if let Some(tag) = tag {
+                    for _ in 0..count {
+                        let msg = self.gen_message(ch, "deliver");
+                        let d = basic::Deliver { consumer_tag: tag.clone(), delivery_tag: msg.delivery_tag, redelivered: msg.redelivered, exchange: msg.exchange.clone(), routing_key: msg.routing_key.clone() };
+                        let frames = self.content_frames(ch, AMQPClass::Basic(B::Deliver(d)), &msg);
+                        self.stats.deliveries += 1;
+                        self.enqueue_now(ch, frames, SentKind::Deliver { ch, tag: tag.clone(), msg });
+                    }
+                }
+            }
             Action::Blocked(reason) => {
                 let b = connection::Blocked { reason: reason.clone() };
                 self.enqueue_now(0, vec![Self::m(0, AMQPClass::Connection(Cn::Blocked(b)))], SentKind::Blocked(reason));
@@ -1149,7 +1175,11 @@ impl Broker {
                 self.send_eof(true)
             }
             Action::Silence => {
-                self.silent = true;
+                // once the CloseOk that answers the client's Connection.Close is on its way the session is over:
+                // falling silent after that is not a fault any more (and must not count as one that fired)
+                if !self.closeok_enqueued {
+                    self.silent = true;
+                }
             }
             Action::Confirm { ch, ack, tag, multiple } => {
                 let m = if ack {
